@@ -39,6 +39,15 @@ def daemon_specs(tier, seed):
                 c = simple_cert("c%d" % len(specs), key_type=kt, kp_reuse=reuse)
                 specs.append(flowcheck.prepare(dict(tag="C02/s%03d" % len(specs), certs=[c], steps=steps, account_hooks=file_hooks,
                                                     meta={"family": "chain lengths over renewals", "chain_lens": seq, "key_type": kt, "kp_reuse": reuse})))
+    # a file-pre-edit hook that takes the old file off its path (backup by mv, rotation): the new content is at the configured path
+    # afterwards, not in the file that was moved away
+    for k, cmd_args in enumerate((["mv", "{{ file_path }}", "{{ file_path }}.bak"], ["rm", "-f", "{{ file_path }}"])):
+        hooks = standard_hooks() + [{"name": "rotate", "type": ["file-pre-edit"], "cmd": cmd_args[0], "args": cmd_args[1:]}]
+        c = simple_cert("rot%d" % len(specs), kp_reuse=bool(k))
+        specs.append(flowcheck.prepare(dict(tag="C02/s%03d" % len(specs), certs=[c], hooks=hooks, account_hooks=file_hooks + ["rotate"],
+                                            steps=[("run", {"attempts": 1}), ("call", set_chain(2)), ("run", {"attempts": 1}), ("call", set_contacts(["rot@example.org", "rot2@example.org"])),
+                                                   ("run", {"attempts": 1})],
+                                            meta={"family": "pre-edit hook takes the old file off its path", "hook": cmd_args[0]})))
     # a CA that hands out the end-entity certificate it already issued for that key and those names, behind another chain
     for seq in ([2, 3], [3, 1], [1, 2, 2]):
         c = simple_cert("sl%d" % len(specs), kp_reuse=True)
